@@ -2,8 +2,8 @@ package main
 
 import (
 	"fmt"
-	"os"
 	"go/types"
+	"os"
 	"strings"
 
 	"golang.org/x/tools/go/ssa"
